@@ -263,6 +263,11 @@ class World:
             pid = self.pick_parent(rng, bias)
             parent = self.chain.blocks[pid]
             ts = parent.ts + rng.choice(dt_choices)
+            if getattr(self, "min_ts", 0) > ts:
+                # a chain stamped AHEAD of this machine's wall clock (a node whose clock was set back after the blocks were
+                # accepted -- an NTP step, a VM restore, a board without a battery): nothing the node does with blocks it has
+                # already accepted may look at the wall clock again
+                ts = self.min_ts + rng.choice([0, 1, 59])
             rtxs = []
             used = set()
             led = self.ledger(pid)
